@@ -69,8 +69,9 @@ LEVEL_TEXT = ("Lean 4 proof. Full strength for the first clause, for every varia
               "value) built from fk_commit and the five *_prefix_consistent theorems; recordCallNode_shapes (which call "
               "graph a crash can leave). 'Later runs return what a fresh run returns' is C03.history_shallow_sound on the "
               "same histories plus the result oracle: partial. 'Retried operations neither duplicate nor lose records' is "
-              "FALSE for record_call_node even with the proposed fixes: known_retry_loses_argument_rows, "
-              "known_nested_retry_drops_pending (known findings). For the unrepaired code: refuted_task_gap, "
+              "FALSE for the two-commit record_call_node: known_retry_loses_argument_rows (known finding); "
+              "known_nested_retry_drops_pending shows why a nested db_retry had to go (fixed: only the outermost call "
+              "retries). For the unrepaired code: refuted_task_gap, "
               "refuted_retry_loses_rows, refuted_retry_keyerror.")
 LEVEL_NOTE = ("partial where the truth lives in the runtime: real process death is simulated by discarding the session at a "
               "commit boundary (no torn pages, no half-written journal), OperationalError is injected, not provoked. "
@@ -286,8 +287,8 @@ def run(ctx):
             cases.append(w.clean)
             full = (wi == 0) or thorough
             ks = list(range(1, w.ncommits + 1))
-            crash_ks = ks if full else sorted(rng.sample(ks, min(len(ks), 4)))
-            fault_ks = ks if full else sorted(rng.sample(ks, min(len(ks), 4)))
+            crash_ks = ks if full else sorted(rng.sample(ks, min(len(ks), 3)))
+            fault_ks = ks if full else sorted(rng.sample(ks, min(len(ks), 3)))
             for k in crash_ks:
                 ctl_db.guarded(ctx, f"{w.label}:crash@{k}", lambda k=k: crash_case(ctx, w, k, cases))
             for k in fault_ks:
@@ -297,7 +298,7 @@ def run(ctx):
             # (the second half of a run is the resolve phase: record_call_node with its nested record_value calls)
             lo = max(1, w.nstmts // 2)
             want = (30 if thorough else 6) if wi == 0 else (10 if thorough else 1)
-            stmt_ks = list(range(1, w.nstmts + 1)) if (thorough and wi == 0) else \
+            stmt_ks = (list(range(1, lo, 3)) + list(range(lo, w.nstmts + 1))) if (thorough and wi == 0) else \
                 sorted(rng.sample(range(lo, w.nstmts + 1), min(want, w.nstmts + 1 - lo)))
             for k in stmt_ks:
                 if not ctl_db.guarded(ctx, f"{w.label}:fault-stmt@{k}", lambda k=k: fault_case(ctx, w, k, "stmt", cases), True):
